@@ -582,3 +582,6 @@ tuple_impls!(A, B, C, D, E, F, G, H, I);
 tuple_impls!(A, B, C, D, E, F, G, H, I, J);
 tuple_impls!(A, B, C, D, E, F, G, H, I, J, K);
 tuple_impls!(A, B, C, D, E, F, G, H, I, J, K, L);
+
+#[cfg(all(kani, abra_verif))]
+include!(concat!(env!("ABRA_VERIF_HARNESS_DIR"), "/host_bindings.rs"));
